@@ -43,6 +43,9 @@ BLOOM_K = [('filters__bloomfilter.rs', 'c01_bloom_insert_query_step', 'bounded(m
 CUCKOO_K = [('filters__cuckoofilter.rs', 'c14_cuckoo_delete_query_step', 'bounded(2 buckets x 2 slots, 2-bit fingerprints, 3 keys; every hash function, arbitrary table)'),
             ('filters__cuckoofilter.rs', 'c12_cuckoo_restore_state_reverse_order', 'bounded(log <= 3; 2x2 table)')]
 
+HASHITER_K = [('hash_utils.rs', 'hashiter_setup_f_m1_k3', 'bounded(m=1, k=3, 3 keys; every hash function): setup_f + iter_for against the documented formula'),
+              ('hash_utils.rs', 'hashiter_setup_f_m4_k3', 'bounded(m=4, k=3)')]
+HASHITER_K_THOROUGH = [('hash_utils.rs', 'hashiter_setup_f_m7_k2', 'bounded(m=7, k=2)')]
 CMS_ADD_QUICK = [('countminsketch.rs', 'c02_cms_add_u8_1x1', 'bounded((w,d)=(1,1), u8, 3 keys; every hash function, arbitrary table)'),
                  ('countminsketch.rs', 'c02_cms_add_u8_2x3', 'bounded((w,d)=(2,3), u8)'),
                  ('countminsketch.rs', 'c02_cms_add_u16_2x2', 'bounded((w,d)=(2,2), u16)'),
@@ -88,7 +91,7 @@ PROPS = {}
 PROPS['C01'] = {
     'level': 'other',
     'verus_units': ['hashiter', 'bloom', 'cuckoo'],
-    'kani': {'quick': BLOOM_K + CUCKOO_K + QF_QUICK + QF_UNION_QUICK, 'thorough': QF_THOROUGH + QF_UNION_THOROUGH},
+    'kani': {'quick': HASHITER_K + BLOOM_K + CUCKOO_K + QF_QUICK + QF_UNION_QUICK, 'thorough': HASHITER_K_THOROUGH + QF_THOROUGH + QF_UNION_THOROUGH},
     'explanation': 'Bloom and Cuckoo: Verus proofs (unbounded in sizes, hashers, eviction outcomes) of exact whole-view contracts on the real insert/query/delete/union text + history lemmas (bits only grow; every class covers its live elements). Quotient filter: Kani one-step harnesses from EVERY canonical state of a small table (bounded in table size only, unbounded in history length). HashSet reference implementation: five delegations to std, not verified.',
     'trusted_base': COMMON_TRUST + [HASH_TRUST, INTVEC_TRUST, FBS_TRUST, PANIC_ASSERTS,
                                     'verus/prelude/rng.rs: rand::Rng as an arbitrary-value source (gen_range in [a,b), gen::<bool> arbitrary)',
@@ -100,7 +103,7 @@ PROPS['C01'] = {
 PROPS['C02'] = {
     'level': 'other',
     'verus_units': ['hashiter', 'cms', 'lemma_cms'],
-    'kani': {'quick': CMS_ADD_QUICK + CMS_MERGE[:1], 'thorough': CMS_ADD_THOROUGH + CMS_MERGE[1:]},
+    'kani': {'quick': HASHITER_K + CMS_ADD_QUICK + CMS_MERGE[:1], 'thorough': HASHITER_K_THOROUGH + CMS_ADD_THOROUGH + CMS_MERGE[1:]},
     'explanation': 'Verus proof (unbounded in w, d, counter type, hasher) of the real add_n/add: n is added to exactly the cell of obj in every row, all other cells unchanged, the result is min(old cells)+n, overflow panics are the only precondition. query_point/merge/clear/is_empty (iterator chains outside the Verus subset): Kani one-step contract harnesses from ARBITRARY table contents with a fully symbolic hasher (bounded in (w,d) and key universe, unbounded in history and counter values); Verus: hash iterator positions in range for all (m,k) and the history lemma (contracts => never underestimates, never exceeds total) for all histories.',
     'trusted_base': COMMON_TRUST + [HASH_TRUST, 'unit cms: the num_traits bounds on the counter type are ONE contract trait `Counter` (exact checked_add or None, min, clone, zero/one)', 'lemma_cms.vrs states the add_n/merge contracts as spec predicates; their correspondence to the Kani assertions is by inspection (same sentences)'],
     'assumptions': ['(w,d) grid {(1,1),(2,3),(2,2),(4,1),(1,4)} quick, +(3,2) thorough; 3-key universe', 'overflowing adds panic (checked_add().unwrap()) and are excluded by assume'],
